@@ -44,8 +44,8 @@ MUTANTS = [
     dict(id='sa-batch-seconds', props=['C02'], file='Standalone/mga2gda.py',
          old="    dms = degrees + (minutes / 100) + (seconds / 10000)", new="    dms = degrees + (minutes / 100) + (round(seconds, 4) / 10000)",
          note='stand-alone batch output: seconds rounded to 4 decimals (1e-4 arc-second = 2.8e-8 deg, above the stated 1e-10 deg)'),
-    dict(id='psf-quadrant', props=['C10'], file='geodepy/convert.py', old='    elif cm < lon and lat > 0:',
-         new='    elif cm < lon and lat >= 0 and False:', note='quadrant sign rule'),
+    dict(id='psf-quadrant', props=['C10'], file='geodepy/convert.py', old='    elif sin(long_diff) > 0 and lat > 0:',
+         new='    elif sin(long_diff) > 0 and lat > 0 and False:', note='quadrant sign rule'),
     dict(id='psf-cosh-sinh', props=['C10'], file='geodepy/convert.py',
          old='        q += 2*r * a[r-1] * sin(2*r * xi1) * sinh(2*r * eta1)',
          new='        q += 2*r * a[r-1] * sin(2*r * xi1) * cosh(2*r * eta1)', note='cosh <-> sinh in q'),
